@@ -163,7 +163,11 @@ func dischargeOne(o *Obligation, idx int, cfg SolverCfg) {
 	for _, sp := range solvers {
 		sp := sp
 		go func() {
-			a, b, _ := runSolver(sp, file, cfg.Timeout)
+			budget := cfg.Timeout
+			if cfg.AllAgree && res == "unsat" {
+				budget = 8 * time.Second // already discharged once: the others are only given a chance to disagree
+			}
+			a, b, _ := runSolver(sp, file, budget)
 			ch <- r{a, b, sp.name}
 		}()
 	}
